@@ -490,7 +490,7 @@ _HE = dict(
     # S1/S2: inductive - established by __init__ (empty _stream, fresh decoder), re-proved at every exit
     requires=["self._is_done or h3_streams_ok(self)"],
     # ASSUMPTION W (transport state, NOT peer stream bytes): the local QPACK streams were neither finished nor reset.
-    # A peer STOP_SENDING on one of them breaks it - see the finding variant H3Connection._decode_headers#finding_stop_sending
+    # A peer STOP_SENDING on one of them breaks it: the layer then stops, see H3Connection.handle_event#stop_sending
     assume_pre=["h3_writable(self)"],
     raises={"MemoryError": None},
     modifies=_RSD_MOD + ["self._is_done", "self._quic._close_event", "self._quic._close_pending"],
@@ -506,6 +506,20 @@ _HE = dict(
 R.contract("H3Connection.handle_event", params={"event": "StreamDataReceived"}, **dict(_HE, requires=_HE["requires"] + ["event.stream_id is not None"]))
 R.contract("H3Connection.handle_event#datagram", params={"event": "DatagramFrameReceived"}, **_HE)
 R.contract("H3Connection.handle_event#other", params={"event": "ConnectionTerminated"}, **_HE)
+# STOP_SENDING for one of this endpoint's critical streams (control, QPACK encoder, QPACK decoder): the transport has reset
+# the sending half, so assumption W no longer holds for it - the layer must stop (H3_CLOSED_CRITICAL_STREAM) before any
+# later header block would write to that stream (added with the /repo fix 004f410; before it AssertionError escaped the
+# next handle_event, tools/repro/c16_stop_sending_qpack_stream.py)
+R.field_types("StopSendingReceived", error_code="int", stream_id="int")
+R.contract(
+    "H3Connection.handle_event#stop_sending",
+    params={"event": "StopSendingReceived"},
+    **dict(_HE, ensures=_HE["ensures"] + [
+        "implies(self._local_control_stream_id is not None and event.stream_id == some(self._local_control_stream_id), self._is_done)",
+        "implies(self._local_decoder_stream_id is not None and event.stream_id == some(self._local_decoder_stream_id), self._is_done)",
+        "implies(self._local_encoder_stream_id is not None and event.stream_id == some(self._local_encoder_stream_id), self._is_done)",
+    ]),
+)
 
 # ---------------------------------------------------------------------------------------------------------------- (8)
 # HTTP/0.9.  bytes methods (CPython, trusted): only what the request-line parser relies on.
@@ -607,29 +621,14 @@ R.contract("bytes.isdigit", trusted=True, returns="bool", params={"a0": "bytes"}
            ensures=["result == (len(a0) >= 1 and forall(lambda i: implies(0 <= i < len(a0), py_digit(elem(a0, i)))))"], note="CPython bytes.isdigit(): total")
 # bytes.decode("utf8", "ignore") (CPython, trusted; used by the fix tools/fixes/c16_close_reason_truncate.patch): total; undecodable
 # bytes are dropped, so re-encoding the result gives at most as many bytes
-R.contract("bytes.decode", trusted=True, returns="str", params={"a0": "bytes", "a1": "str", "a2": "str"}, requires=["a2 == 'ignore'"],
+R.contract("bytes.decode:ignore", trusted=True, returns="str", params={"a0": "bytes", "a1": "str", "a2": "str"},
            ensures=["str_utf8_ok(result)", "len(str_utf8(result)) <= len(a0)"], note="CPython bytes.decode('utf8', 'ignore')")
 
 # ---------------------------------------------------------------------------------------------------------------- (11)
-# FINDING kept as a separate variant (expected REFUTED on the unchanged tree; known_findings.json; no small fix):
-# assumption W (h3_writable) is NOT an invariant of the system - the peer can break it with a transport frame.  After a
-# STOP_SENDING for this endpoint's QPACK decoder (or encoder / control) stream the transport resets the send half, and the
-# next HEADERS frame makes _decode_headers call send_stream_data on it: `assert self._reset_error_code is None` fails and
-# AssertionError escapes H3Connection.handle_event (tools/repro/c16_stop_sending_qpack_stream.py).  Outside the literal
-# quantification of C16 ("byte sequences a peer can place on any stream"), inside its claim ("returns normally").
-R.spec(
-    """
-def h3_local_ids_sendable(c):
-    return c._local_decoder_stream_id is not None and c._local_encoder_stream_id is not None and q_sendable(c._quic, some(c._local_decoder_stream_id)) and q_sendable(c._quic, some(c._local_encoder_stream_id))
-"""
-)
-R.contract(
-    "H3Connection._decode_headers#finding_stop_sending",
-    params={"frame_data": "Optional[bytes]"},
-    returns="Headers",
-    requires=["h3_local_ids_sendable(self)", "h3_hdr_call_ok(self, stream_id, frame_data is not None)"],
-    raises={"QpackDecompressionFailed": None, "StreamBlocked": None},
-    modifies=_DEC_MOD,
-    ensures=["h3_pending_minus(self, stream_id)"],
-    prop=["C16"],
-)
+# HISTORY: assumption W (h3_writable) is not an invariant of the system - the peer can break it with a transport frame.
+# On the pinned tree a STOP_SENDING for this endpoint's QPACK decoder stream followed by any HEADERS frame made
+# _decode_headers call send_stream_data on a reset stream: AssertionError escaped H3Connection.handle_event.  Repaired in
+# /repo (004f410): the StopSendingReceived event for a critical stream now stops the layer - contract
+# H3Connection.handle_event#stop_sending above.  W is therefore assumed only for layers that have NOT been handed such an
+# event, i.e. it relies on the application passing transport events to handle_event in the order the transport produced
+# them (as asyncio's QuicConnectionProtocol does).
